@@ -7,8 +7,10 @@ Oracle on the real code (independent of the Lean model, written from the propert
 <expected base>/metrics/<path>, where the expected base is the gateway as spelled, without trailing slashes, with
 `http://` put in front when no scheme was given; <path> is split on '/', segments are paired, a `name@base64`
 segment is decoded with Python's own base64.urlsafe_b64decode (alphabet checked, '=' trimmed as the Pushgateway
-does), every other value with urllib.parse.unquote_plus (strict); the result must equal
-[('job', job)] + sorted((str(k), str(v)) for k, v in grouping_key.items()).  No segment may be empty (the
+does), every other value TWICE: with urllib.parse.unquote (path unescaping, '+' literal — what the Pushgateway's Go
+server does) and with urllib.parse.unquote_plus (form decoding), both strict; BOTH results must equal
+[('job', job)] + sorted((str(k), str(v)) for k, v in grouping_key.items()).  A URL that only the form decoder reads
+back (a space written as '+') fails with signature C19:space-as-plus.  No segment may be empty (the
 HTTP server cleans '//' away; that is what `name@base64/=` is for), a plain segment must not carry a slash (the
 Pushgateway's HTTP server unescapes %2F before routing), the path must be printable ASCII without '?'
 and '#'.  Method, body, content type, time-out are checked per public function; distinct inputs must give
@@ -18,8 +20,8 @@ T2: the driver returns the model's URL, method, headers, body selector, time-out
 that URL for the same inputs; compared verbatim.  Function level: _escape_grouping_key, quote_plus,
 urlsafe_b64encode, the scheme test of urlparse (+ base URL), and the spec decoders against CPython's.
 
-Design remark (F15, not a defect): '+' for a space is right for the decoder the property names (URL-unescape with
-'+' -> space); under Go's *path* unescaping '+' is literal.
+History: the plain branch used quote_plus (space -> '+'), which the Pushgateway reads as a literal plus; repaired in
+/repo (quote(v, safe=''), space -> %20).  Reverting the repair is the C19:space-as-plus failure class.
 """
 import base64
 import itertools
@@ -87,8 +89,9 @@ def call_real(fn, gateway, job, gk, timeout):
 
 
 # --------------------------------------------------------------------------------------------- property oracle
-def pg_decode(path):
-    """the Pushgateway's reading of the path after /metrics/ -> (labels, None) | (None, why)"""
+def pg_decode(path, plus):
+    """the Pushgateway's reading of the path after /metrics/ -> (labels, None) | (None, why);
+    plus=False: path unescaping ('+' literal, Go URL.Path); plus=True: form decoding ('+' -> space)"""
     segs = path.split('/')
     if len(segs) % 2:
         return None, 'odd number of path segments (%d)' % len(segs)
@@ -111,7 +114,7 @@ def pg_decode(path):
             if BAD_PCT_RE.search(val):
                 return None, 'segment %r has a stray %%' % val
             try:
-                text = urllib.parse.unquote_plus(val, errors='strict')
+                text = (urllib.parse.unquote_plus if plus else urllib.parse.unquote)(val, errors='strict')
             except Exception as e:  # noqa
                 return None, 'segment %r does not URL-unescape: %s' % (val, type(e).__name__)
             if '/' in text:
@@ -144,11 +147,19 @@ def oracle(case, cap):
         path = url[len(head):]
         if any(not (0x21 <= ord(c) <= 0x7e) for c in path) or '?' in path or '#' in path:
             bad.append(('C19:url-chars', 'path %r contains a raw space/control/non-ASCII character or ?/#' % path))
-        got, why = pg_decode(path)
-        if got is None:
-            bad.append(('C19:decode', 'path %r: %s; input was %r' % (path, why, want)))
-        elif got != want:
-            bad.append(('C19:decode', 'path %r decodes to %r, input was %r' % (path, got, want)))
+        got_go, why_go = pg_decode(path, plus=False)
+        got_form, why_form = pg_decode(path, plus=True)
+        if got_go != want and got_form == want and '+' in path:
+            bad.append(('C19:space-as-plus', 'path %r: the Pushgateway (path unescaping, "+" literal) reads %r, input was %r; '
+                        'only form decoding gives the input back — a space is written as "+"' % (path, got_go, want)))
+        else:
+            for which, got, why in (('path unescaping', got_go, why_go), ('form decoding', got_form, why_form)):
+                if got is None:
+                    bad.append(('C19:decode', 'path %r (%s): %s; input was %r' % (path, which, why, want)))
+                    break
+                elif got != want:
+                    bad.append(('C19:decode', 'path %r decodes (%s) to %r, input was %r' % (path, which, got, want)))
+                    break
     if cap['method'] != METHOD[fn]:
         bad.append(('C19:method', '%s used method %r, not %r' % (fn, cap['method'], METHOD[fn])))
     if fn == 'delete':
@@ -280,7 +291,7 @@ def compare_model(ctx, case, cap, reply):
     if 'exc' in cap or cap.get('calls') != 1:
         return
     rep = reply.split(' ')
-    if rep[0] != 'ok' or len(rep) != 7:
+    if rep[0] != 'ok' or len(rep) != 8:
         ctx.diverge('driver error %r' % reply, case)
         return
     ctx.traces += 1
@@ -299,10 +310,11 @@ def compare_model(ctx, case, cap, reply):
         ctx.diverge('body: model %s, implementation %s (E = exposition, X = empty)' % (rep[4], flag), case)
     if rep[5] != tok(cap['timeout']):
         ctx.diverge('time-out: model %s, implementation %s' % (rep[5], tok(cap['timeout'])), case)
-    # the spec's reading of the model URL must be the input (theorem url_decodes) — visible in the run as well
+    # the spec's two readings of the model URL must be the input (theorems url_decodes_go / url_decodes) — visible in the run too
     want = [('job', case['job'])] + sorted((str(k), str(v)) for k, v in case['gk'])
-    if dec_pairs(rep[6]) != want:
-        ctx.diverge('spec decoder reads the model URL as %r, input %r (theorem url_decodes)' % (dec_pairs(rep[6]), want), case)
+    for f, thm in ((rep[6], 'url_decodes_go'), (rep[7], 'url_decodes')):
+        if dec_pairs(f) != want:
+            ctx.diverge('spec decoder reads the model URL as %r, input %r (theorem %s)' % (dec_pairs(f), want, thm), case)
 
 
 def classify(case):
@@ -422,15 +434,22 @@ def function_level(ctx, n):
     texts += [rand_text(rng, 16) for _ in range(n)]
     for s in texts:
         real = urllib.parse.quote_plus(s)
+        real_q = urllib.parse.quote(s, safe='')
 
-        def chk(rep, s=s, real=real):
-            ctx.count('fn quote_plus')
+        def chk(rep, s=s, real=real, real_q=real_q):
+            ctx.count('fn quote_plus / quote')
+            c = {'kind': 'quote', 's': s}
             if lib.unhx(rep[1]) != real:
-                ctx.diverge('quote_plus(%r): model %r, CPython %r' % (s, lib.unhx(rep[1]), real), {'kind': 'quote', 's': s})
+                ctx.diverge('quote_plus(%r): model %r, CPython %r' % (s, lib.unhx(rep[1]), real), c)
             if rep[2] == '-' or lib.unhx(rep[2]) != s:
-                ctx.diverge('spec unquotePlus(quotePlus(%r)) = %s (theorem unquote_quote_plus)' % (s, rep[2]), {'kind': 'quote', 's': s})
-            if urllib.parse.unquote_plus(real, errors='strict') != s:
-                raise lib.Infra('CPython unquote_plus(quote_plus(s)) != s for %r' % s)
+                ctx.diverge('spec unquotePlus(quotePlus(%r)) = %s (theorem unquote_quote_plus)' % (s, rep[2]), c)
+            if lib.unhx(rep[3]) != real_q:
+                ctx.diverge("quote(%r, safe=''): model %r, CPython %r" % (s, lib.unhx(rep[3]), real_q), c)
+            if rep[4] == '-' or lib.unhx(rep[4]) != s or rep[5] == '-' or lib.unhx(rep[5]) != s:
+                ctx.diverge('spec unquote/unquotePlus(quote(%r)) = %s / %s (theorem unquote_quote)' % (s, rep[4], rep[5]), c)
+            if (urllib.parse.unquote_plus(real, errors='strict') != s or urllib.parse.unquote(real_q, errors='strict') != s
+                    or urllib.parse.unquote_plus(real_q, errors='strict') != s):
+                raise lib.Infra('CPython unquote*(quote*(s)) != s for %r' % s)
         add('c19 quote ' + lib.hx(s), chk)
     # urlsafe_b64encode and the spec's decoder
     blobs = [b'', b'\x00', b'\xff', b'\xfb\xff\xfe', bytes(range(256))] + [rng.randbytes(rng.randint(0, 40)) for _ in range(n)]
@@ -458,8 +477,9 @@ def function_level(ctx, n):
             got = (lib.unhx(rep[1]), lib.unhx(rep[2]))
             if got != tuple(real):
                 ctx.diverge('_escape_grouping_key(%r, %r): model %r, implementation %r' % (k, v, got, real), {'kind': 'esc', 'k': k, 'v': v})
-            if dec_pairs(rep[3]) != [(k, v)]:
-                ctx.diverge('spec decodePair(escape(%r, %r)) = %r (theorem pair_decodes)' % (k, v, dec_pairs(rep[3])), {'kind': 'esc', 'k': k, 'v': v})
+            if dec_pairs(rep[3]) != [(k, v)] or dec_pairs(rep[4]) != [(k, v)]:
+                ctx.diverge('spec decodePair(escape(%r, %r)) = %r (path unescaping) / %r (form) (theorems pair_decodes_go, pair_decodes)'
+                            % (k, v, dec_pairs(rep[3]), dec_pairs(rep[4])), {'kind': 'esc', 'k': k, 'v': v})
         add('c19 esc %s %s' % (lib.hx(k), lib.hx(v)), chk)
     # the scheme test of urlparse, scheme defaulting, rstrip
     gws = [s + h + sl for h in HOSTS for s in SCHEMES for sl in SLASHES]
@@ -487,14 +507,15 @@ def function_level(ctx, n):
         s = rand_str(rng, list('%+/aF09=-_ ') + ['\u00e9', '%41', '%C3%A9', '%e6%bc%a2', '%2F', '%zz'], 0, 8)
 
         def chk(rep, s=s):
-            ctx.count('fn spec unquotePlus')
-            if rep[1] != '-':
-                try:
-                    py = urllib.parse.unquote_plus(s, errors='strict')
-                except UnicodeDecodeError:
-                    py = None
-                if py != lib.unhx(rep[1]):
-                    ctx.diverge('spec unquotePlus(%r) = %r, CPython %r' % (s, lib.unhx(rep[1]), py), {'kind': 'unq', 's': s})
+            ctx.count('fn spec unquotePlus / unquote')
+            for f, fn, name in ((rep[1], urllib.parse.unquote_plus, 'unquotePlus'), (rep[2], urllib.parse.unquote, 'unquote')):
+                if f != '-':
+                    try:
+                        py = fn(s, errors='strict')
+                    except UnicodeDecodeError:
+                        py = None
+                    if py != lib.unhx(f):
+                        ctx.diverge('spec %s(%r) = %r, CPython %r' % (name, s, lib.unhx(f), py), {'kind': 'unq', 's': s})
         add('c19 unq ' + lib.hx(s), chk)
         t = rand_str(rng, 'AZaz09-_=', 0, 9)
 
@@ -525,7 +546,7 @@ def run(ctx):
                 'labels (legacy names, shuffled insertion order; values: strings, ints, floats, bools, None) over gateway '
                 'spellings %r x schemes %r x trailing slashes %r and the three public functions; a case is non-trivial when '
                 'the job or a value is empty, contains "/" or needs escaping; distinct by URL.  Function level: quote_plus, '
-                'urlsafe_b64encode, _escape_grouping_key, urlparse scheme test/base, spec decoders vs CPython.'
+                'quote(safe=""), urlsafe_b64encode, _escape_grouping_key, urlparse scheme test/base, both spec decoders vs CPython.'
                 % (REDUCED, FULL, HOSTS, SCHEMES, SLASHES))
     _setup()
     cases, n_ex = gen_cases(ctx)
@@ -534,8 +555,9 @@ def run(ctx):
     ctx.extra.pop('_urls', None)
     ctx.extra['exhaustive_part'] = ('%d strings enumerated exhaustively (length <= 3 over the reduced alphabet, <= 2 over the full '
                                     'one), each as job and as label value; the rest is seeded random' % n_ex)
-    ctx.extra['remark_F15'] = ("'+' for a space matches the decoder the property names (URL-unescape, '+' -> space); under Go "
-                               "path-unescaping '+' is literal and a value with a space would not round-trip — remark, not a verdict")
+    ctx.extra['two_decoders'] = ("every captured URL is decoded with urllib.parse.unquote (path unescaping, '+' literal: the Pushgateway) "
+                                 "and with unquote_plus (form decoding); both must give the inputs back.  The former quote_plus encoding "
+                                 "(space -> '+') fails the first reading: signature C19:space-as-plus")
     ctx.extra['outside_quantifier'] = ('label names that are not legacy label names (e.g. containing "/"): written unescaped by '
                                        'the client; theorem name_with_slash_outside_quantifier')
 
